@@ -162,6 +162,14 @@ def gen_plan(seed: int, run: int, tier: str) -> dict:
         "chunked_write": False,
         "busy_timeout": 60.0,
     }
+    # racy mode: the workers' calls are NOT serialised by the harness; threads/processes run
+    # into each other inside the storage layer under line-level pre-emption (the in-memory
+    # backend maintains its best trial incrementally - a read-compare-write that must stay
+    # under the storage lock); the oracle is then evaluated on the final state only
+    if not sqlite and nw >= 2 and rng.random() < 0.3:
+        cfg["racy"] = True
+        cfg["p_line"] = rng.choice([0.02, 0.08, 0.2])
+        cfg["p_seam"] = rng.choice([0.2, 0.5])
     return {"check": ID, "seed": seed, "run": run, "cfg": cfg, "workers": workers, "sched": {"seed": rng.getrandbits(48)}}
 
 
@@ -358,7 +366,7 @@ def oracle(study: Any, directions: list[str], via: str, sim: Any) -> tuple[str, 
 def run_plan(plan: dict) -> dict:
     cfg = plan["cfg"]
     ch = common.make_chooser(plan)
-    sim = sched.Sim(ch, trace_suffixes=(), max_steps=400000, uuid_salt=str(plan.get("run", 0)))
+    sim = sched.Sim(ch, trace_suffixes=common.TRACE_STORAGE if cfg.get("racy") else (), max_steps=400000, uuid_salt=str(plan.get("run", 0)))
     dep = deploy.Deployment(sim, cfg["deployment"], cfg)
     try:
         return _run(plan, sim, ch, dep)
@@ -399,6 +407,9 @@ def _run(plan: dict, sim: sched.Sim, ch: sched.Chooser, dep: deploy.Deployment) 
     def gated(name: str, fn: Any) -> None:
         """One API call + oracle evaluation, not interleaved with other workers' calls."""
         sim.seam("step")
+        if cfg.get("racy"):
+            fn()
+            return
         sim.block_until(lambda: gate["owner"] is None, "gate")
         gate["owner"] = name
         try:
@@ -493,6 +504,8 @@ def _run(plan: dict, sim: sched.Sim, ch: sched.Chooser, dep: deploy.Deployment) 
             else:
                 sim.count("op_" + op["op"])
                 sim.note("op", name, r[1])
+            if cfg.get("racy"):
+                return  # concurrent calls: only the final state is judged
             if sqlite and op["op"] in ("ask", "enqueue") and r[0] == "ok":
                 # SQLite deployments cost ~1 ms per statement: skip the oracle after calls
                 # that cannot change the set of finished trials
@@ -533,7 +546,7 @@ def _run(plan: dict, sim: sched.Sim, ch: sched.Chooser, dep: deploy.Deployment) 
     extra = {"api_calls": state["done_ops"], "runs_alternated": 1 if alternated else 0}
 
     def finish(verdict: tuple[str, str] | None, ncomplete: int) -> dict:
-        nontrivial = bool(alternated and ncomplete >= 2 and sim.counters.get("oracle_evals", 0) >= 4)
+        nontrivial = bool(alternated and ncomplete >= 2 and sim.counters.get("oracle_evals", 0) >= 4) or bool(cfg.get("racy") and sim.switches > 0 and ncomplete >= 2)
         if verdict is not None:
             return common.result(sim, ch, "violation", prefix + verdict[0], verdict[1], nontrivial=nontrivial, extra_counters=extra)
         return common.result(sim, ch, "ok", nontrivial=nontrivial, extra_counters=extra)
